@@ -136,6 +136,19 @@ def check(ctx) -> Result:
     n += rg_mass.check_function(ctx, res, ctx.func(PD, "annotated_state_pdist_calc"), exceptions={
         "unique_results[in_state[": ("identity slice (see C04)", __import__("lwsa.props.c04", fromlist=["x"]).identity_slice_exception)})
     res.floor("G stores in source model", n, 12)
+    # labels are opaque names: Source._remap_distribution renumbers them by first appearance, so the convolution code
+    # may compare labels with each other but never with a literal ("label 0 is the shared one" does not hold after remapping)
+    apd = ctx.func(PD, "annotated_state_pdist_calc")
+    label_vars = set()
+    for n in walk_no_nested(apd.node):
+        if isinstance(n, ast.For) and isinstance(n.target, ast.Name) and isinstance(n.iter, ast.Name) and n.iter.id in ("mode", "labels", "all_labels"):
+            label_vars.add(n.target.id)
+        if isinstance(n, ast.comprehension) and isinstance(n.target, ast.Name) and isinstance(n.iter, ast.Name) and n.iter.id in ("mode", "labels", "all_labels"):
+            label_vars.add(n.target.id)
+    res.floor("label iteration variables", len(label_vars), 1)
+    lit = [c for c in walk_no_nested(apd.node) if isinstance(c, ast.Compare) and ((isinstance(c.left, ast.Name) and c.left.id in label_vars and any(isinstance(x, ast.Constant) for x in c.comparators)) or (isinstance(c.left, ast.Constant) and any(isinstance(x, ast.Name) and x.id in label_vars for x in c.comparators)))]
+    res.add(not lit, "Kp-labels-opaque", "annotated_state_pdist_calc", apd.site(lit[0]) if lit else apd.site(), apd.qualname, "photon labels are only used as dictionary keys / compared with each other",
+            f"`{src(lit[0]) if lit else ''}` gives a particular label value a meaning, but labels are renumbered by order of first appearance before they arrive here: photons sharing a non-zero label would no longer be grouped (their interference is lost)", construct=src(lit[0]) if lit else "")
     bs = S.methods["_build_statistics"]
     tb = src(bs.node).replace(" ", "")
     res.add("thresholded_dict[s]=p/total" in tb and "total=sum(thresholded_dict.values())" in tb and "ifp>=self.probability_threshold" in tb, "G-threshold-renormalises", "_build_statistics", bs.site(), bs.qualname, "kept weights are divided by the kept total", "threshold path does not renormalise over exactly the kept inputs", construct="threshold")
